@@ -49,7 +49,7 @@ package support
 //@ func (*registry).RegisterSingleton
 //@ property C07
 //@ requires [registry-built] r.componentsMap != nil
-//@ requires [plain-component] !typeIs(singleton, reflect.Value) && !implements(singleton, reflect.Type)
+//@ requires [plain-component] singleton != nil && !typeIs(singleton, reflect.Value) && !implements(singleton, reflect.Type)
 //@ assigns r.componentsMap.Dom, r.componentsMap.Val
 //@ ensures [no-two-under-one-name] forall(k, string, implies(r.componentsMap.Dom[k], (old(r.componentsMap.Dom[k]) && r.componentsMap.Val[k] == old(r.componentsMap.Val[k])) || (k == NameOf(singleton) && !old(r.componentsMap.Dom[k]) && r.componentsMap.Val[k] == singleton)))
 //@ ensures [existing-kept] forall(k, string, implies(old(r.componentsMap.Dom[k]), r.componentsMap.Dom[k] && r.componentsMap.Val[k] == old(r.componentsMap.Val[k])))
